@@ -16,7 +16,7 @@ CHECKS = {
                      "(every branch incl. the far-exponent perturbation shortcut, via a proved sticky-bit principle), mul (fast bit-count update), mul_int, div, rdiv_int, "
                      "from_rational and sqrt (over the reals, via the integer square root and the sticky principle) return THE correctly rounded value (uniqueness proved), x/0 and sqrt of a negative raise. The model equals the code on a seeded bit-exact correspondence run; "
                      "the implementation output is additionally decided against an exact rational oracle.",
-                note=TB + "sqrt is proved over the reals (Props/C02sqrt.lean: THE rounding of Real.sqrt, all five modes); fsum is tied by correspondence and decided by the exact oracle (no theorem). API-level glue (operators, keyword parsing) is sampled."),
+                note=TB + "sqrt is proved over the reals (Props/C02sqrt.lean: THE rounding of Real.sqrt, all five modes); fsum is proved (Props/C02sum.lean) to be THE correct rounding of the exact sum whenever the nonzero terms' exponents lie within 2*prec of each other (implied by the property's hypothesis: mantissas of at most p bits, magnitudes spanning fewer than p bits); beyond that window the code drops terms (shown on a witness). fdot and API-level glue (operators, keyword parsing) is sampled."),
     "C03": dict(category="proof", technique="Lean 4 theorems about the model of mpf_pow_int (directed binary exponentiation, reciprocal mode swap): side, faithful rounding, exactness, small powers correctly rounded + bit-exact correspondence",
                 text="Theorem C03_pow_int: for every finite canonical base, every integer exponent (any sign and size), every precision >= 1 and every mode the result of mpf_pow_int is canonical with at most prec bits, "
                      "is never on the wrong side of the exact power in the four directed modes, is a faithful rounding (one of the two neighbours of the exact power, i.e. error below one unit in the last place) in nearest mode, "
